@@ -33,6 +33,7 @@ fn profile() -> ScenarioProfile {
         rf: true,
         ops: vec![Op::Remove, Op::Link, Op::SoftLink, Op::Move, Op::Dedupe],
         files: (5, 14),
+        hardlinks: 3,
     }
 }
 
